@@ -107,6 +107,41 @@ def stepC01 : List String → String
         f ++ " " ++ f
       | none => "bad-op"
     | none => "bad-op"
+  | "orph" :: _order :: rest =>
+    -- an empty parent and a child with at most one transfer, through ProcessBlock: the best chain
+    -- grows by two blocks iff the child's transaction is acceptable (or there is none) — whatever
+    -- the order of delivery
+    match rest with
+    | m :: rest' =>
+      match nat? m with
+      | some m =>
+        match parsePairs m rest' with
+        | some (ins, rest2) =>
+          match parseVec rest2 with
+          | some (outs, _) =>
+            if m == 0 then "adv=2" else
+            let env : Env := { minFee := ofInt 100, afterNFT := false, multiExchange := false, rectifyFee := ofInt 10000 }
+            if accepts curRev .plainOut env .ok fundVal ins outs then "adv=2" else "adv=1"
+          | none => "bad-op"
+        | none => "bad-op"
+      | none => "bad-op"
+    | _ => "bad-op"
+  | "flowx" :: kind :: flags :: minFee :: sp :: rest =>
+    -- as `flow`, the last output being denominated in another asset than ELA
+    match nat? kind, int? minFee, parseSpecial sp, parseVec rest with
+    | some kind, some minFee, some sp, some (outs, rest) =>
+      match parseIns rest, classOf kind with
+      | some (ins, refs), some c =>
+        let env : Env := { minFee := ofInt minFee, afterNFT := flags.contains 'a',
+                           multiExchange := flags.contains 'm', rectifyFee := ofInt 10000 }
+        let san0 := sanity curRev c env ins outs
+        let san := if san0 == .inn then San.inn
+                   else if requiresELA c env ins.length && !outs.isEmpty then San.out else san0
+        if c == .coinbase then fmtSan san ++ " -"
+        else if san != .ok then fmtSan san ++ " -"
+        else fmtSan san ++ " " ++ fmtCtx (context c env sp outs refs)
+      | _, _ => "bad-op"
+    | _, _, _, _ => "bad-op"
   | "flow" :: kind :: flags :: minFee :: sp :: rest =>
     match nat? kind, int? minFee, parseSpecial sp, parseVec rest with
     | some kind, some minFee, some sp, some (outs, rest) =>
